@@ -56,6 +56,19 @@ func (hc heapCase) String() string {
 	return s
 }
 
+// within runs f and reports whether it returned within d (a Write or request that never returns - a
+// lock left held - must end a history with a verdict, not the monitor).
+func within(d time.Duration, f func()) bool {
+	done := make(chan struct{})
+	go func() { defer close(done); f() }()
+	select {
+	case <-done:
+		return true
+	case <-time.After(d):
+		return false
+	}
+}
+
 func liveHeap() (bytes uint64, objects uint64) {
 	var ms runtime.MemStats
 	runtime.GC()
@@ -386,9 +399,10 @@ func retentionHistory(rc retainCase, faulty bool, cycles int, seed int64) (max r
 	if err = m.Start(); err != nil {
 		return
 	}
-	defer m.Close()
+	defer within(5*time.Second, m.Close)
 	ntp := time.Date(2024, 1, 1, 0, 0, 0, 0, time.UTC)
 	n := 0
+	stuck := false
 	sample := func() retainObs {
 		var o retainObs
 		rec := httptest.NewRecorder()
@@ -412,7 +426,15 @@ func retentionHistory(rc retainCase, faulty bool, cycles int, seed int64) (max r
 		} else {
 			tu = [][]byte{frame}
 		}
-		e := m.WriteAV1(tr, ntp.Add(time.Duration(n)*500*time.Millisecond), int64(n)*45000, tu)
+		if stuck {
+			return
+		}
+		var e error
+		wn := n
+		if !within(20*time.Second, func() { e = m.WriteAV1(tr, ntp.Add(time.Duration(wn)*500*time.Millisecond), int64(wn)*45000, tu) }) {
+			stuck = true
+			return
+		}
 		n++
 		if e != nil {
 			max.failures++
@@ -456,6 +478,9 @@ func retentionHistory(rc retainCase, faulty bool, cycles int, seed int64) (max r
 	for k := 0; k < 2*segCount+4; k++ {
 		gop(goodA)
 	}
+	if stuck {
+		return max, final, fmt.Errorf("write %d did not return within 20 s (a lock left held by a failed rotation?)", n)
+	}
 	return max, final, nil
 }
 
@@ -472,6 +497,10 @@ func retentionProbe(rep *ev.Reporter, tier string, seed int64, stats oracle.Stat
 			continue
 		}
 		fm, ff, err := retentionHistory(rc, true, cycles, seed)
+		if err != nil && strings.Contains(err.Error(), "did not return") {
+			rep.Report("C18/retention-after-failed-write/writer-stuck", fmt.Sprintf("%s: %v", rc, err), ref)
+			continue
+		}
 		if err != nil {
 			fmt.Printf("HARNESS: retention history %s: %v\n", rc, err)
 			continue
@@ -530,6 +559,7 @@ func faultRetention(rep *ev.Reporter, tier string, seed int64, stats oracle.Stat
 		episodes = 10
 	}
 	n, failed, maxFiles := 0, 0, 0
+	stuck := false
 	write := func() {
 		nalu := make([]byte, 1500)
 		nalu[0] = 0x41
@@ -544,7 +574,17 @@ func faultRetention(rep *ev.Reporter, tier string, seed int64, stats oracle.Stat
 					rep.Report("C18/write-fault/writer-panic", fmt.Sprintf("mpegts: write %d panicked during a write-fault episode: %v", n, pv), ref)
 				}
 			}()
-			if e := m.WriteH264(tr, ntp.Add(time.Duration(n)*40*time.Millisecond), int64(n)*3600, au); e != nil {
+			if stuck {
+				return
+			}
+			var e error
+			wn := n
+			if !within(20*time.Second, func() { e = m.WriteH264(tr, ntp.Add(time.Duration(wn)*40*time.Millisecond), int64(wn)*3600, au) }) {
+				stuck = true
+				rep.Report("C18/write-fault/writer-stuck", fmt.Sprintf("mpegts: write %d did not return within 20 s during a write-fault history", wn), ref)
+				return
+			}
+			if e != nil {
 				failed++
 			}
 		}()
@@ -568,6 +608,10 @@ func faultRetention(rep *ev.Reporter, tier string, seed int64, stats oracle.Stat
 	}
 	es, _ := os.ReadDir(dir)
 	endFiles := len(es)
+	if stuck {
+		syscall.Setrlimit(syscall.RLIMIT_FSIZE, &old)
+		return
+	}
 	m.Close()
 	left, _ := os.ReadDir(dir)
 	stats["C18.write_fault_histories"]++
